@@ -65,7 +65,7 @@ PROPS = {
              {"m.block": ["amt", "ev"], "d.bb": ["ev"], "v.withdraw": ["paid", "ev"], "v.send": ["ev"]},
              exact_ops=["m.block", "d.bb", "v.withdraw"]),
     "C19": P(["C4E.Props.C19"], ["C4E.Props.C19"],
-             [("minter", 400, 6000)],
+             [("minter", 400, 6000), ("minterupd", 120, 1800)],
              {"m.block": ["amt", "infl", "supply"], "m.infl": "*"},
              exact_ops=["m.block", "m.infl"]),
     "C13": P(["C4E.Props.C13"], ["C4E.Props.C13"],
@@ -94,7 +94,7 @@ PROPS = {
              exact_ops=["g.exportimport", "m.block", "d.bb", "m.infl", "v.*"],
              thorough_seeds=8),
     "C01": P(["C4E.Props.C01", "C4E.Tie.C01"], ["C4E.Props.C01"],
-             [("minter", 150, 2000), ("distr", 150, 2000), ("distrfaults", 80, 1000), ("vest", 150, 2000), ("split", 80, 1000), ("sig", 40, 400)],
+             [("minter", 150, 2000), ("minterupd", 90, 1300), ("distr", 150, 2000), ("distrfaults", 80, 1000), ("vest", 150, 2000), ("split", 80, 1000), ("sig", 40, 400)],
              {"m.block": ["amt", "ev", "supply"], "d.bb": ["main", "bal", "burned"], "v.createPool": ["bal"], "v.withdraw": ["bal"], "v.send": ["bal"],
               "v.createVA": ["bal"], "v.split": ["bal"], "v.move": ["bal"], "v.moveDenoms": ["bal"]},
              exact_ops=["m.block", "d.bb"]),
